@@ -130,7 +130,27 @@ def plan_C03(ctx):
     ctx.exhaustive = True
 
 
+def es_fixture_crosscheck(ctx):
+    """The ECMA-262 transcriptions of the specification against ground truth recorded from a real engine."""
+    ctx.mc("MC_ES", env={"VERIF_FIXTURES": os.path.join(vcheck.VERIF, "fixtures")}, export=False)
+
+
+def plan_rel(ctx):
+    pid = ctx.pid
+    what = {"C07": "== and != (119-value corpus V7, all 14161 ordered pairs)", "C08": "=== and !== (119-value corpus V7, all ordered pairs; same-variable container case)",
+            "C09": "< <= > >= (70-value corpus V9, all 4900 ordered pairs; triples over a %d-value sub-corpus)" % (24 if ctx.deep else 14)}[pid]
+    ctx.rule = ("TLC enumerates %s through literal operands, through var, and through the public js_op helpers; one case per distinct TLC state. "
+                "The specification's ES transcription is cross-checked in TLC against 14k pair results and 11k Number()/parseFloat() results recorded from node 20" % what)
+    es_fixture_crosscheck(ctx)
+    cases = ctx.mc("MC_Rel", env={"VERIF_FAMILY": pid}, tag="MC_Rel_" + pid)
+    ctx.replay(cases)
+    ctx.exhaustive = True
+
+
 PLANS = {
+    "C07": plan_rel,
+    "C08": plan_rel,
+    "C09": plan_rel,
     "C03": plan_C03,
     "C02": plan_C02,
     "C06": plan_C06,
